@@ -35,7 +35,7 @@ let parse_toks (toks : string list) : tok list =
   List.map (fun t ->
     if t = "" then raise (Bad_op t) else
     match t.[0] with
-    | 'w' -> let n = int_of_string (tail t) in
+    | 'w' | 'o' -> let n = int_of_string (tail t) in
       let l = List.init n (fun i -> z_of_int (pat (!written + i))) in
       written := !written + n; TWrite l
     | 'x' -> let l = zlist_of_hex (tail t) in written := !written + List.length l; TWrite l
